@@ -29,15 +29,20 @@ pub fn build_pass_1(
     let mut code_offset = 0;
     let mut data_offset = device.ram_start;
     let mut eeprom_offset = 0;
+    // where what is placed in a memory ends: an .org that nothing follows moves the location counter and takes no space
+    let mut code_end = 0;
+    let mut data_end = device.ram_start;
+    let mut eeprom_end = 0;
     for segment in parsed.segments {
-        let offset = match segment.t {
-            SegmentType::Code => code_offset,
-            SegmentType::Data => data_offset,
-            SegmentType::Eeprom => eeprom_offset,
+        let (offset, occupied) = match segment.t {
+            SegmentType::Code => (code_offset, code_end),
+            SegmentType::Data => (data_offset, data_end),
+            SegmentType::Eeprom => (eeprom_offset, eeprom_end),
         };
 
         let (current_end_offset, current_offset, items) =
-            pass_1_internal(&segment, offset, common_context)?;
+            pass_1_internal(&segment, offset, occupied, common_context)?;
+        let places = current_end_offset > current_offset;
         segments.push(Segment {
             items,
             t: segment.t,
@@ -47,32 +52,41 @@ pub fn build_pass_1(
         match segment.t {
             SegmentType::Code => {
                 code_offset = current_end_offset;
+                if places {
+                    code_end = current_end_offset;
+                }
             }
             SegmentType::Data => {
                 data_offset = current_end_offset;
+                if places {
+                    data_end = current_end_offset;
+                }
             }
             SegmentType::Eeprom => {
                 eeprom_offset = current_end_offset;
+                if places {
+                    eeprom_end = current_end_offset;
+                }
             }
         }
     }
 
-    let ram_filling = match data_offset.checked_sub(device.ram_start) {
+    let ram_filling = match data_end.checked_sub(device.ram_start) {
         Some(ram_filling) => ram_filling,
         None => bail!("data segment ends below the start of RAM"),
     };
 
     // pass 2 emits nothing beyond the memories of the device
-    if code_offset > device.flash_size {
+    if code_end > device.flash_size {
         bail!(
             "Flash size overdue by {} words",
-            code_offset - device.flash_size
+            code_end - device.flash_size
         )
     }
-    if eeprom_offset > device.eeprom_size {
+    if eeprom_end > device.eeprom_size {
         bail!(
             "Eeprom size overdue by {} bytes",
-            eeprom_offset - device.eeprom_size
+            eeprom_end - device.eeprom_size
         )
     }
     if ram_filling > device.ram_size {
@@ -105,12 +119,13 @@ pub(crate) fn advance(address: u32, count: u64, unit: u64, line: &CodePoint) -> 
 fn pass_1_internal(
     segment: &Segment,
     address: u32,
+    occupied: u32,
     common_context: &CommonContext,
 ) -> Result<(u32, u32, Vec<(CodePoint, Item)>), Error> {
     let current_offset = if segment.address == 0 {
         address
     } else {
-        if segment.address < address {
+        if segment.address < occupied {
             bail!("segment overlapping isn't supported");
         }
         segment.address
